@@ -239,7 +239,7 @@ pub fn gen_ws(ch: &mut Chooser, cx: &mut CaseCtx, o: &WsGenOpts) -> WsCase {
             let rej_dir_ok = |p: &str| -> bool { !strict || states_ref.iter().all(|st| dir_exists(st, dir_of(p))) };
             let existing: Vec<String> = next.files.keys().filter(|p| !touched.contains(p)).cloned().collect();
             let nonempty: Vec<String> = existing.iter().filter(|p| !next.files[*p].data.is_empty()).cloned().collect();
-            let mut kind = ch.weighted(&[10, 3, 2, 1, if o.allow_rename && git && !reverse { if failing_here { 5 } else { 2 } } else { 0 }, if o.allow_mode && git { 2 } else { 0 }]);
+            let mut kind = ch.weighted(&[10, 3, 2, 1, if o.allow_rename && git && !reverse { if failing_here { 5 } else { 2 } } else { 0 }, if o.allow_mode && git { 2 } else { 0 }, if o.allow_dir_races && !failing_here { 1 } else { 0 }]);
             if existing.is_empty() {
                 kind = 1;
             }
@@ -317,6 +317,45 @@ pub fn gen_ws(ch: &mut Chooser, cx: &mut CaseCtx, o: &WsGenOpts) -> WsCase {
                     touched.push(target.clone());
                     ops.push(FileOp { kind: "create".into(), old_path: chg.old_path.clone(), new_path: chg.new_path.clone(), target, hunks: fp.hunks.clone(), failing_hunks: failing, fail_reason });
                     specs.push(fp);
+                }
+                6 => {
+                    // delete everything below one top-level directory: nested directories and their parents
+                    // become empty in the same push
+                    let tops: Vec<String> = {
+                        let mut v: Vec<String> = next.files.keys().filter(|p| p.contains('/')).map(|p| p[..p.find('/').unwrap()].to_string()).collect();
+                        v.sort();
+                        v.dedup();
+                        v
+                    };
+                    let tops: Vec<String> = tops
+                        .into_iter()
+                        .filter(|t| {
+                            let fs: Vec<&String> = next.files.keys().filter(|p| p.starts_with(&format!("{}/", t))).collect();
+                            fs.len() >= 2 && fs.len() <= 5 && fs.iter().all(|p| !next.files[*p].data.is_empty() && !touched.contains(*p))
+                        })
+                        .collect();
+                    if tops.is_empty() {
+                        continue;
+                    }
+                    let t = tops[ch.below(tops.len())].clone();
+                    let victims: Vec<String> = next.files.keys().filter(|p| p.starts_with(&format!("{}/", t))).cloned().collect();
+                    for path in victims {
+                        let f = next.files[&path].clone();
+                        let lines = split_lines(&f.data);
+                        let fp = if reverse {
+                            let r = FileChange { old_path: path.clone(), new_path: path.clone(), old: None, new: Some(lines.clone()), old_mode: None, new_mode: Some(f.mode), rename: false };
+                            build_file_patch(ch, &d, &r, &vec![Op::Ins; lines.len()], 3, Merge::Gnu)
+                        } else {
+                            let chg = FileChange { old_path: path.clone(), new_path: path.clone(), old: Some(lines.clone()), new: None, old_mode: Some(f.mode), new_mode: None, rename: false };
+                            build_file_patch(ch, &d, &chg, &vec![Op::Del; lines.len()], 3, Merge::Gnu)
+                        };
+                        next.files.remove(&path);
+                        touched.push(path.clone());
+                        ops.push(FileOp { kind: "delete".into(), old_path: path.clone(), new_path: path.clone(), target: path, hunks: fp.hunks.clone(), failing_hunks: vec![], fail_reason: None });
+                        specs.push(fp);
+                    }
+                    feat.push("delete".into());
+                    feat.push("whole-directory-tree-deleted".into());
                 }
                 2 | 3 => {
                     // delete (2) / truncate (3)
